@@ -1994,6 +1994,9 @@ impl Interpreter {
 
         for stmt in program.body.iter() {
             let specifier = match stmt {
+                // Type-only imports and re-exports are erased: they load nothing
+                Statement::Import(import) if import.type_only => None,
+                Statement::Export(export) if export.type_only => None,
                 Statement::Import(import) => Some(import.source.value.to_string()),
                 Statement::Export(export) => {
                     // Re-export from another module: export { foo } from "./bar"
